@@ -157,7 +157,13 @@ CLAIMS.update({
          "algorithm than the writer's => rejected whatever weaker hashes it lists; declaredOk_sound; accepted_resolves: an "
          "accepted declaration with one digest of that algorithm has the content path of the computed integrity, i.e. the "
          "key is readable - F22); the phases up to the checks never aim at the index area and the index insertion never returns an "
-         "integrity/size error, hence for EVERY state a commit that reports either error left every index path untouched. "
+         "integrity/size error, hence for EVERY state a commit that reports either error left every index path untouched. TOTAL CORRECTNESS with a "
+         "declared integrity (Props/C08x, Lemmas/DeclRefine): from any healthy cache, any flavour / chunking - a declaration the "
+         "data does not satisfy => integrity error, abstract index unchanged (every lookup as before), healthy, tmp clean, "
+         "keyed and by address; a satisfied declaration => ok with the declared integrity, the key maps to the entry "
+         "carrying it, other keys untouched, and the key reads back the data when the declaration lists no second digest of "
+         "the writer's algorithm (F24 otherwise: counter-example proved); whole programs with declared integrities refine "
+         "the abstract cache (cache_refines_map_declared). "
          "Correspondence: prior state x declared size {none,=,<,>} x declared integrity {none, ok, wrong, other algo, "
          "multi-hash of the same algorithm ok / wrong, multi-hash naming a stronger algorithm with a wrong / an unverifiable "
          "digest} x chunking x flavour x keyed/by-address; after an accepted keyed commit the key must read back the data.",
